@@ -22,6 +22,16 @@ def run(ctx):
     else:
         confs = [(4, 4, 4, 1, 0, 0), (4, 5, 5, 1, 0, 3), (7, 6, 6, 0, 0, 3), (7, 5, 5, 1, 0, 3), (10, 7, 7, 0, 0, 2)]
     binary = ctx.go_test_bin("smartcontract/service/native/cross_chain/header_sync/test", harness="b_sig_hsync")
+    if ctx.replay_in:
+        import json, sys
+        rec = json.load(open(ctx.replay_in))["replay"]
+        obs = run_bin(ctx, binary, rec["N"], [{"bk": rec["bk"], "sigs": rec["sigs"]}], "replay") if binary else None
+        if obs is None:
+            sys.exit(2)
+        nvalid = len({g[1] for g in rec["sigs"] if g[0] == "g" and 1 <= g[1] <= rec["N"]})
+        bad = obs[0]["acc"] and 3 * nvalid < 2 * rec["N"]
+        print("REPLAY property=C33 %s: accepted=%s distinct valid peer signatures=%d of %d peers" % ("VIOLATION reproduced" if bad else "not reproduced", obs[0]["acc"], nvalid, rec["N"]))
+        sys.exit(1 if bad else 0)
     nexec = nacc = nunsound = cand = 0
     per = {}
     if binary:
@@ -39,11 +49,12 @@ def run(ctx):
             need = -(-2 * N // 3)
             ctx.log("N=%d: the tree wants a bookkeeper list of length >= %d (property: >= %d distinct valid peer signatures)" % (N, ml, need))
             name = "SigHeader_S%d_%d.cfg" % (N, ci)
-            dcfg = sc.hdr_cfg(N, 0, 0, 0, need, False, "sync", maxbk, maxsigs, "SyncSound", False, outs, slack, align)
-            ccfg = sc.hdr_cfg(N, 0, 0, 0, ml, True, "sync", maxbk, maxsigs, "SyncSoundUpTo", True, outs, slack, align)
-            d, (r, rows) = sc.parallel(
-                lambda: sc.run_tlc_plain(ctx, "SigHeader_MC", "d" + name, "design N=%d: SyncSound" % N, files={"d" + name: dcfg}),
-                lambda: sc.run_tlc_rows(ctx, "SigHeader_MC", name, files={name: ccfg}))
+            # MaskByPosition OFF (repaired by 900ecb87).  With the probed threshold at (or above) two thirds the
+            # property SyncSound itself is the invariant of the model of the tree; a lower probed threshold is a
+            # candidate that the rows then confirm on the real code
+            ccfg = sc.hdr_cfg(N, 0, 0, 0, ml, False, "sync", maxbk, maxsigs, "SyncSound" if ml >= need else "SyncSoundUpTo", True,
+                              outs, slack, align)
+            r, rows = sc.run_tlc_rows(ctx, "SigHeader_MC", name, files={name: ccfg})
             if not r:
                 continue
             H = sc.hdr_rows(rows)
@@ -72,8 +83,8 @@ def run(ctx):
                         key = "SyncBlockHeader:unsound-accept:non-peer-bookkeeper"
                     elif 3 * len(h["bk"]) < 2 * N:
                         key = "SyncBlockHeader:unsound-accept:list-shorter-than-two-thirds"
-                    elif h["acc"] and h["dup"]:
-                        key = KNOWN          # long enough list of peers, but one peer listed (and counted) several times
+                    elif h["dup"]:
+                        key = KNOWN          # fixed by 900ecb87: a long enough list of peers with one peer counted several times
                     elif h["acc"]:
                         key = "SyncBlockHeader:unsound-accept:list-length-threshold-below-two-thirds"
                     else:
